@@ -183,3 +183,17 @@ Proof.
   intro l. split; [|split; [apply NoDup_dedup|apply in_dedup]].
   rewrite <- dedup_first_occ_gen. simpl. induction (dedup l) as [|z zs IH]; simpl; [reflexivity|]. f_equal. exact IH.
 Qed.
+
+(* The emitted Union lists the variants in spec order (first occurrence of each), without duplicates,
+   every variant present; a nullable union is that text followed by " | None". *)
+Theorem resolve_union_spec : forall m1 m2 ms nullable,
+  alias_type (m1 :: m2 :: ms) nullable
+  = s_Union_open ++ join [44;32] (first_occurrences [] (m1 :: m2 :: ms)) ++ [93]
+    ++ (if nullable then s_or_None else [])
+  /\ NoDup (first_occurrences [] (m1 :: m2 :: ms))
+  /\ (forall x, In x (first_occurrences [] (m1 :: m2 :: ms)) <-> In x (m1 :: m2 :: ms)).
+Proof.
+  intros m1 m2 ms nullable. destruct (dedup_spec (m1 :: m2 :: ms)) as [H1 [H2 H3]].
+  rewrite <- H1. split; [|split; assumption].
+  unfold alias_type, resolve_union. rewrite <- !app_assoc. reflexivity.
+Qed.
